@@ -139,6 +139,7 @@ package writer
 //@   requires wipBlock != nil && wipBlock.blockSummary.LowTs <= wipBlock.blockSummary.HighTs
 //@   requires int(wipBlock.blockSummary.RecCount) <= len(wipBlock.blockTs)
 //@   requires forall(k, 0, int(wipBlock.blockSummary.RecCount), wipBlock.blockSummary.LowTs <= wipBlock.blockTs[k] && wipBlock.blockTs[k] <= wipBlock.blockSummary.HighTs)
+//@   ensures [timestamp-block-type] implies(result1 == nil, len(result0) == 1 && result0[0] == 2 && samebase(result0, sutils.TIMESTAMP_TOPDIFF_VARENC))
 //@   site call tsWip.cbuf.Append #2:
 //@     assert [ts8-exact] uint64(tsVal) + lowTs == wipBlock.blockTs[i]
 //@   site call tsWip.cbuf.AppendUint16LittleEndian #1:
@@ -231,4 +232,86 @@ package writer
 //@   requires wipBlock != nil && allSeenColumnSizes != nil
 //@   site call convertColumnToNumbers #1:
 //@     assert [rewritten-column-marked-inconsistent] allSeenColumnSizes[colName] == sutils.INCONSISTENT_CVAL_SIZE
+//@ end
+
+// C14 (metadata file lists exactly the survivors): removeSegmetas rewrites
+// segmeta.json from the entries it preserved.  An entry is preserved only if
+// it is not a victim (other index / key not listed), the rewritten file is
+// produced by truncating the temp file (no stale tail of an interrupted
+// earlier pass can survive) and is renamed over segmeta.json itself.
+//@ func removeSegmetas
+//@   props C14
+//@   site call append #1:
+//@     assert [survivor-of-other-index] segMetaData.VirtualTableName != indexName
+//@   site call append #2:
+//@     assert [survivor-not-listed] !haskey(segkeysToRemove, segMetaData.SegmentKey)
+//@   site call os.OpenFile #2:
+//@     assert [rewrite-truncates] (arg1 & os.O_TRUNC) != 0 && (arg1 & os.O_APPEND) == 0 && (arg1 & os.O_WRONLY) != 0
+//@   site call os.Rename #1:
+//@     assert [temp-renamed-over-segmeta] arg0 == tmpFileName && arg1 == localSegmetaFname
+//@ end
+
+// C15 (a failed item leaves no trace / a malformed item affects only itself):
+// parsed-event objects are recycled through a pool, and the parser appends
+// columns to whatever the object already holds.  Whatever the pool hands out,
+// the document is parsed into an event with no columns, carrying the body,
+// timestamp and index of this request only.
+//@ func (*ParsedLogEvent).Reset
+//@   props C15
+//@   modifies ple.allCnames, ple.allCvals, ple.allCvalsTypeLen, ple.numCols
+//@   ensures [emptied] ple.numCols == 0 && len(ple.allCnames) == 0 && len(ple.allCvals) == 0 && len(ple.allCvalsTypeLen) == 0
+//@ end
+
+//@ func (*ParsedLogEvent).SetRawJson
+//@   props C15
+//@   modifies ple.rawJson
+//@   ensures samebase(ple.rawJson, rawJson) && len(ple.rawJson) == len(rawJson)
+//@ end
+
+//@ func (*ParsedLogEvent).SetTimestamp
+//@   props C15
+//@   modifies ple.timestampMillis
+//@   ensures ple.timestampMillis == timestampMillis
+//@ end
+
+//@ func (*ParsedLogEvent).SetIndexName
+//@   props C15
+//@   modifies ple.indexName
+//@   ensures ple.indexName == indexName
+//@ end
+
+//@ func GetNewPLE
+//@   props C15
+//@   requires tsKey != nil
+//@   site call ParseRawJsonObject #1:
+//@     assert [parsed-into-an-empty-event] arg4 == ple && ple.numCols == 0 && len(ple.allCnames) == 0 && len(ple.allCvals) == 0 && len(ple.allCvalsTypeLen) == 0
+//@     assert [event-carries-this-request] samebase(ple.rawJson, rawJson) && samebase(arg1, rawJson) && ple.indexName == indexName && ple.timestampMillis == tsMillis
+//@ end
+
+// C01 (every ingested value is returned): a column block is written in
+// dictionary form from colWip.deData (PackDictEnc writes deCount words and the
+// record numbers listed under each), so dictionary form may only be chosen
+// when the dictionary stands for the buffered values: it is not empty (a
+// column rewritten by consolidateColumnTypes has values in its buffer and a
+// reset dictionary) and it did not overflow the cardinality limit.
+//@ func writeWip
+//@   props C01
+//@   requires [dictionary-stands-for-the-buffer] implies(samebase(encType, sutils.ZSTD_DICTIONARY_BLOCK), colWip.deData.deCount > 0 && colWip.deData.deCount < wipCardLimit)
+//@   note the block type is identified by the package-level slice that is passed (sutils.ZSTD_DICTIONARY_BLOCK), which is how every caller names it
+//@   note only the precondition is claimed (checked at the call in the flush closure); the body (file append, compression) is not under contract
+//@ end
+
+// bloom construction for one column: reads the column buffer / dictionary and
+// fills the column's bloom index; frame only, ASSUMED
+//@ func (*SegStore).writeToBloom
+//@   assumed
+//@   modifies fieldsof(BloomIndex), allbytes
+//@ end
+
+//@ func (*SegStore).AppendWipToSegfile$1
+//@   props C01
+//@   note flush closure of one column (run as a goroutine per column; verified as if run alone): only the precondition of writeWip is checked here
+//@   site call segstore.wipBlock.encodeTimestamps #1:
+//@     assume segstore.wipBlock.blockSummary.LowTs <= segstore.wipBlock.blockSummary.HighTs && int(segstore.wipBlock.blockSummary.RecCount) <= len(segstore.wipBlock.blockTs) && forall(k, 0, int(segstore.wipBlock.blockSummary.RecCount), segstore.wipBlock.blockSummary.LowTs <= segstore.wipBlock.blockTs[k] && segstore.wipBlock.blockTs[k] <= segstore.wipBlock.blockSummary.HighTs)
+//@   note the block-summary invariant (LowTs <= every buffered timestamp <= HighTs, RecCount <= len(blockTs)) at the call of encodeTimestamps is an UNCHECKED site assumption: it is established by the ingest path, which is not under contract
 //@ end
